@@ -45,6 +45,11 @@ fn main() {
                        drop(r); drop(m); std::fs::remove_file(&f).unwrap(); s }
             "F13" => { let mut r = RawVector::with_len(1, false); r.set_bit(0, true); r.set_bit(1, true); let b = BitVector::from(r);
                        format!("len {} ones {} zero_iter().next() = {:?}", b.len(), b.count_ones(), b.zero_iter().next()) }
+            "F14" => { let f = serialize::temp_file_name("demo-f14"); let v: Vec<u64> = vec![u64::MAX, u64::MAX, 0, 1, 5]; serialize::serialize_to(&v, &f).unwrap();
+                       let m = MemoryMap::new(&f, MappingMode::ReadOnly).unwrap();
+                       let r = IntVectorMapper::new(&m, 1);
+                       let s = match &r { Ok(iv) => format!("Ok: len {} width {} get(len-1) = {:#x}", iv.len(), iv.width(), iv.get(iv.len() - 1)), Err(e) => format!("Err({:?})", e.kind()) };
+                       drop(r); drop(m); std::fs::remove_file(&f).unwrap(); s }
             _ => "unknown".to_string(),
         }
     });
